@@ -97,7 +97,7 @@ package task
 //@   ensures result == nil ==> forall j {t.Deps[j]} :: 0 <= j && j < len(t.Deps) ==> depCallOK(t.Deps[j])   [C01,C03]
 //@   init waitErr := nil
 //@   site (*Group).Wait#1 ghost waitErr := result
-//@   ensures result == waitErr                                                                         [C03]
+//@   ensures result == waitErr     -- a dependency stopped by a guard fails the invocation with that guard's own error (its exit class)   [C03,C13]
 
 // ---- C12: the listing options are the flags, and "list" is asked for when either of them is set ------------
 //@ func NewListOptions
